@@ -370,6 +370,34 @@ func (c *ctxt) o2oWriterMutations(a, b, x ident) {
 				c.o2oState(tag, acc, q, info)
 			}
 		}
+		// random writer lists / owners beyond the fixed variants: 0..4 entries drawn from {A, B, X,
+		// undecodable bytes}, owner drawn from {A–B joint key, A–X joint key, X, nil, undecodable};
+		// only the correspondence with the Lean model of setOneToOneAcl is checked on these
+		ownerAX := owner
+		if sax, err := crypto.GenerateSharedKey(a.priv, x.pub, crypto.AnysyncOneToOneSpacePath); err == nil {
+			ownerAX, _ = sax.GetPublic().Marshall()
+		}
+		pool := [][]byte{A, B, X, {1, 2, 3}}
+		owners := [][]byte{owner, ownerAX, X, nil, {9, 9}}
+		for n := 0; n < r.Pick(4, 40); n++ {
+			k := r.Intn(5)
+			if r.Chance(60) {
+				k = 2
+			}
+			var ws [][]byte
+			for i := 0; i < k; i++ {
+				ws = append(ws, pool[r.Intn(len(pool))])
+			}
+			info := &aclrecordproto.AclOneToOneInfo{Owner: owners[r.Intn(len(owners))], Writers: ws}
+			infoBytes, _ := info.MarshalVT()
+			q := reissue(s, reissueOpts{
+				editAcl:    func(root *aclrecordproto.AclRoot) { root.OneToOneInfo = info },
+				editHeader: func(h *spacesyncproto.SpaceHeader) { h.SpaceHeaderPayload = infoBytes },
+			})
+			for _, acc := range []ident{a, b, x} {
+				c.o2oState(fmt.Sprintf("%s writers:random(%d)", kind, k), acc, q, info)
+			}
+		}
 		// sanity: the unmodified re-issue is usable by both parties
 		ok := reissue(s, reissueOpts{})
 		for _, acc := range []ident{a, b, x} {
